@@ -8,7 +8,7 @@ BOUNDS = {
     "quick": "coordinate-symbolic family on skeletons [2,1], [1,1], [1,0], [0,1], [] (depth 2) and [[1]], [[1,0]] (depth 3) inside authoritative shapes: flattenRanks "
              "(tuple, pair, linear) at depth 0/1 and 1-2 levels, flatten->unflatten, mergeRanks (absolute, relative; colliding points summed), swapRanks and its inverse, "
              "split->flatten(absolute) round trip, updateCoords (c+o, o-c) and updatePayloads (p+w) at every depth; value-symbolic family: swizzleRanks over all "
-             "permutations of 2x2 and 2x2x2 boxes built with explicit zeros / all-zero rows",
+             "permutations of 2x2 and 2x2x2 boxes built with explicit zeros / all-zero rows; canonical (zero cells absent) 2x2x2 boxes and a non-cubic 1x2x3 box for swizzle with the permuted shape checked; two fibers at the transformed depth one of which is empty; flatten of a flatten result (operand intact, inverse still works), swap of a flatten result; inverse transforms inside shapes whose extents all differ (2x3x4, 2x2x3x5)",
     "thorough": "adds [2,2], [[1,1]], [[1],[1]], [[2]] skeletons, 3x2x2 swizzles, estimated (non-authoritative) shapes for every transform",
 }
 OUTSIDE = "boxes larger than the bound for swizzle (coordinates are hashed by the library: concrete there); 'linear' with symbolic shape"
